@@ -248,9 +248,11 @@ def batch_size_check(kind):
             cond = pb != expected if o.kind == "raise" else pb == expected
             st, model = pyvc.prove(cond, list(o.pc))
             if st != "unsat":
+                nat = native_batch_size_witness() if st == "sat" else None
                 return dict(status="violated" if st == "sat" else "undecided", failure="value", backend="pyvc+z3",
                             detail=f"_check_batch_size[{kind}]: path ending in {o.kind} is reachable with {model}",
-                            replay=dict(native_disagrees=False, solver_output=str(model)))
+                            replay=dict(native_disagrees=bool(nat), solver_output=str(model), native=nat or "not reproduced natively",
+                                        expected="ValueError iff the auxiliary batch size differs from the main generator's"))
         kinds = sorted({o.kind for o in outs})
         ok = kinds == ["raise", "return"] and all(o.value == "ValueError" for o in outs if o.kind == "raise")
         return dict(status="discharged" if ok else "violated", backend="pyvc+z3", failure="value", solver_s=time.time() - t0,
@@ -340,18 +342,51 @@ def native_get_batch_witness(sharding, seed):
                                         observed_values=jnp.arange(n, dtype=float)[:, None] * 10.0)
         sh = jax.sharding.SingleDeviceSharding(jax.devices()[0]) if sharding else None
         gb = _get_get_batch(sh)
-        ref = obs
-        d, o = data, obs
+        from jinns.data import DataGeneratorParameter
+        par = DataGeneratorParameter(jax.random.PRNGKey(seed + 3), 12, 4, {"nu": (0.0, 1.0)}, "uniform", {})
+        ref, refp = obs, par
+        d, o, p_ = data, obs, par
         for it in range(12):
-            batch, d, _, o = gb(d, None, o)
+            batch, d, p_, o = gb(d, p_, o)
             ref, rb = ref.get_batch()
+            refp, rpb = refp.get_batch()
             if not np.array_equal(np.asarray(batch.obs_batch_dict["pinn_in"]), np.asarray(rb["pinn_in"])):
                 return dict(native_disagrees=True, inputs=dict(n_obs=n, obs_batch_size=4, draw=it, seed=seed),
                             native=np.asarray(batch.obs_batch_dict["pinn_in"]).ravel().tolist(),
                             expected=np.asarray(rb["pinn_in"]).ravel().tolist())
-        return dict(native_disagrees=False, native="12 draws agree with the observation generator's own sequence")
+            if not np.array_equal(np.asarray(batch.param_batch_dict["nu"]), np.asarray(rpb["nu"])):
+                return dict(native_disagrees=True, inputs=dict(n_params=12, param_batch_size=4, draw=it, seed=seed,
+                                                               path="get_batch_sharding" if sharding else "get_batch"),
+                            native=np.asarray(batch.param_batch_dict["nu"]).ravel().tolist(),
+                            expected=np.asarray(rpb["nu"]).ravel().tolist())
+        return dict(native_disagrees=False, native="12 draws agree with the observation and parameter generators' own sequences")
     except Exception as e:
         return dict(native_disagrees=False, native="witness search failed: " + repr(e)[:200])
+
+
+def native_batch_size_witness():
+    try:
+        from jinns.solver._solve import _check_batch_size
+        from jinns.data import DataGeneratorODE, CubicMeshPDEStatio, CubicMeshPDENonStatio, DataGeneratorObservations
+        k = jax.random.PRNGKey(0)
+        mains = {"ODE": (DataGeneratorODE(k, 10, 0.0, 1.0, 5), 5),
+                 "statio": (CubicMeshPDEStatio(key=k, n=8, nb=None, omega_batch_size=4, omega_border_batch_size=None, dim=1, min_pts=(0.0,), max_pts=(1.0,)), 4),
+                 "nonstatio": (CubicMeshPDENonStatio(key=k, n=8, nb=None, nt=10, omega_batch_size=4, omega_border_batch_size=None, temporal_batch_size=5,
+                                                    dim=1, min_pts=(0.0,), max_pts=(1.0,), tmin=0.0, tmax=1.0), 20)}
+        for nm, (main, good) in mains.items():
+            for size in (good, good + 1, 4 if good != 4 else 5):
+                obs = DataGeneratorObservations(k, size, jnp.zeros((40, 1)), jnp.zeros((40, 1)))
+                try:
+                    _check_batch_size(obs, main, "obs_batch_size")
+                    raised = False
+                except ValueError:
+                    raised = True
+                if raised != (size != good):
+                    return [f"_check_batch_size({nm} generator with batch size {good}, observation batch size {size}) "
+                            f"{'raises ValueError' if raised else 'accepts it'}"]
+    except Exception:
+        return None
+    return None
 
 
 def configs(tier):
